@@ -2,12 +2,12 @@
 (* Trace validation for C29: is a recorded history of the real futures a behaviour of Future.tla ?
    Events (ndjson, in stamp order):
      {"e":"init","kind":"base"|"count"|"dc","n":N,"sync":0|1}   N = count of a countable future
-     {"e":"inv","t":T,"op":"set","v":V} | "op":"get" | "op":"isready" | "op":"got","s":S | "op":"complete","s":S
+     {"e":"inv","t":T,"op":"set","v":V} | "op":"get" | "op":"isready" | "op":"got","sh":S | "op":"complete","sh":S
      {"e":"res","t":T,"op":..,"r":R}
      {"e":"cb","t":T}                completion callback of the base / countable future, logged inside it
-     {"e":"setup","t":T,"s":S}       a nested datacopy future for shape S is created (inside cb_setup_nested)
-     {"e":"fulfil","t":T,"s":S}      fulfilment callback of the datacopy future tracking shape S, logged inside it
-     {"e":"cleanup","s":S}           cleanup callback at destruction
+     {"e":"setup","t":T,"sh":S}       a nested datacopy future for shape S is created (inside cb_setup_nested)
+     {"e":"fulfil","t":T,"sh":S}      fulfilment callback of the datacopy future tracking shape S, logged inside it
+     {"e":"cleanup","sh":S}           cleanup callback at destruction
      {"e":"final"}                   everything destroyed
      {"e":"Reset"}
    A set is linearized in two silent steps (Acc: the value / the count is decided, Pub: readiness is visible) and must
@@ -25,18 +25,20 @@ Ev == TraceLog[l]
 IsEv(e) == l <= Len(TraceLog) /\ Ev.e = e /\ l' = l + 1
 Idle == \A t \in Thr : pend[t] = None
 
+FInitNext(n) == /\ val' = 0 /\ ready' = FALSE /\ cbs' = 0 /\ left' = n
+                /\ created' = {Root} /\ fulfils' = [s \in Shapes |-> 0] /\ done' = {}
 TInit == /\ FInit(0) /\ l = 1 /\ pend = [t \in Thr |-> None] /\ kind = "none" /\ sync = FALSE
          /\ cleaned = [s \in Shapes |-> 0]
 TSetInit == /\ IsEv("init") /\ Idle
-            /\ FInit(Ev.n)' /\ kind' = Ev.kind /\ sync' = (Ev.sync = 1)
+            /\ FInitNext(Ev.n) /\ kind' = Ev.kind /\ sync' = (Ev.sync = 1)
             /\ cleaned' = [s \in Shapes |-> 0] /\ UNCHANGED pend
 TReset == /\ IsEv("Reset")
-          /\ FInit(0)' /\ kind' = "none" /\ sync' = FALSE /\ pend' = [t \in Thr |-> None]
+          /\ FInitNext(0) /\ kind' = "none" /\ sync' = FALSE /\ pend' = [t \in Thr |-> None]
           /\ cleaned' = [s \in Shapes |-> 0]
 
 TInv == /\ IsEv("inv") /\ Ev.t \in Thr /\ pend[Ev.t] = None
         /\ pend' = [pend EXCEPT ![Ev.t] = [op |-> Ev.op, v |-> IF Ev.op = "set" THEN Ev.v ELSE 0,
-                                           s |-> IF Ev.op \in {"got", "complete"} THEN Ev.s ELSE 0,
+                                           s |-> IF Ev.op \in {"got", "complete"} THEN Ev.sh ELSE 0,
                                            ph |-> 0, r |-> 0]]
         /\ UNCHANGED <<fvars, kind, sync, cleaned>>
 
@@ -61,12 +63,12 @@ LinComplete(t) == /\ pend[t] # None /\ pend[t].op = "complete" /\ pend[t].ph = 0
 TCb == /\ IsEv("cb") /\ Ev.t \in Thr /\ pend[Ev.t] # None /\ pend[Ev.t].op = "set" /\ pend[Ev.t].ph = 2
        /\ Callback /\ pend' = [pend EXCEPT ![Ev.t].ph = 3]
        /\ UNCHANGED <<kind, sync, cleaned>>
-TSetup == /\ IsEv("setup") /\ Ev.t \in Thr /\ pend[Ev.t] # None /\ pend[Ev.t].op = "got" /\ pend[Ev.t].s = Ev.s
-          /\ Setup(Ev.s) /\ UNCHANGED <<pend, kind, sync, cleaned>>
+TSetup == /\ IsEv("setup") /\ Ev.t \in Thr /\ pend[Ev.t] # None /\ pend[Ev.t].op = "got" /\ pend[Ev.t].s = Ev.sh
+          /\ Setup(Ev.sh) /\ UNCHANGED <<pend, kind, sync, cleaned>>
 TFulfil == /\ IsEv("fulfil") /\ Ev.t \in Thr /\ pend[Ev.t] # None /\ pend[Ev.t].op = "got"
-           /\ Ev.s \in created /\ fulfils[Ev.s] = 0
-           /\ fulfils' = [fulfils EXCEPT ![Ev.s] = 1]
-           /\ done' = IF sync THEN done \cup {Ev.s} ELSE done
+           /\ Ev.sh \in created /\ fulfils[Ev.sh] = 0
+           /\ fulfils' = [fulfils EXCEPT ![Ev.sh] = 1]
+           /\ done' = IF sync THEN done \cup {Ev.sh} ELSE done
            /\ UNCHANGED <<val, ready, cbs, left, created, pend, kind, sync, cleaned>>
 TRes == /\ IsEv("res") /\ Ev.t \in Thr /\ pend[Ev.t] # None /\ pend[Ev.t].op = Ev.op
         /\ IF Ev.op = "got"
@@ -74,8 +76,8 @@ TRes == /\ IsEv("res") /\ Ev.t \in Thr /\ pend[Ev.t] # None /\ pend[Ev.t].op = E
            ELSE pend[Ev.t].ph = 3 /\ pend[Ev.t].r = Ev.r
         /\ pend' = [pend EXCEPT ![Ev.t] = None]
         /\ UNCHANGED <<fvars, kind, sync, cleaned>>
-TCleanup == /\ IsEv("cleanup") /\ Idle /\ Ev.s \in created /\ cleaned[Ev.s] = 0
-            /\ cleaned' = [cleaned EXCEPT ![Ev.s] = 1]
+TCleanup == /\ IsEv("cleanup") /\ Idle /\ Ev.sh \in created /\ cleaned[Ev.sh] = 0
+            /\ cleaned' = [cleaned EXCEPT ![Ev.sh] = 1]
             /\ UNCHANGED <<fvars, pend, kind, sync>>
 TFinal == /\ IsEv("final") /\ Idle
           /\ kind = "dc" => \A s \in created : cleaned[s] = 1
